@@ -36,6 +36,9 @@ RC == Boxed(Word(65, 66) \o <<Sp>> \o Word(67, 68))          \* "AB CD"
 RX == Word(110, 111) \o <<Sp>> \o Boxed(Word(79, 75))        \* "no" outside the box, "OK" inside
 RU == Word(117, 110)                                         \* text without any box: no subtitle text
 RP == Boxed(<<Ch(97), ParErr(98), Ch(99)>>)                  \* "a?c" with a parity error in the middle
+\* a colour code that repeats the colour in effect (with and without a size code before it): no new attributes
+RR == <<Dh, Col(6)>> \o Boxed(Word(72, 105) \o <<Col(6)>> \o Word(99, 121))
+RS == <<Col(6)>> \o Boxed(Word(72, 105) \o <<Col(6)>> \o Word(99, 121))
 RN == Boxed([i \in 1..13 |-> Ch(SetToSortSeq(NationalPositions, <)[i])] \o <<Ch(65)>>)
 
 Hdr(mag, pt, pu, sub, serial, cs, own) == [k |-> "hdr", mag |-> mag, pt |-> pt, pu |-> pu, sub |-> sub, serial |-> serial, cs |-> cs, erase |-> FALSE, row |-> 0, cells |-> <<>>, own |-> own]
@@ -103,7 +106,7 @@ CasesH == {[st |-> Stream(THex(1, 2, 5, <<<<20, RA>>>>) \o THex(0, 1, 15, <<<<20
 
 \* C: character sets and row contents
 CasesC == {[st |-> Stream(T(1, TRUE, cs, <<<<20, RN>>, <<21, r>>>>) \o T(2, TRUE, cs2, <<<<20, RN>>>>) \o T(3, TRUE, 0, <<>>), 3), op |-> Opt(100, 0)] :
-             cs \in 0..6, cs2 \in {0, 1, 4}, r \in {RA, RB, RX, RU, RP}}
+             cs \in 0..6, cs2 \in {0, 1, 4}, r \in {RA, RB, RX, RU, RP, RR, RS}}
 
 \* I: instance schedules - every sequence of 4 instances of the target page, each empty (erase page / repeated
 \* header) or carrying one of two rows, x 1..3 units per PES: an empty instance before, between and after the
